@@ -3,7 +3,7 @@
    [pi_*] re-states every serializer function of Ast/Print.v as a pure function of the effective indent
    prefix (None inside `on_single_line` and in no_indent mode) and the indent level, producing a list of
    *items*: significant tokens and separator texts.  [ptokens] attaches to each token the separator text
-   written since the previous token; [pt_render] prints that back.  Ast/PrintProofs.v proves
+   written since the previous token; [pt_render] prints that back.  Ast/PrintFactor.v proves
    ast_print cfg d = ApOk (pt_render (ptokens cfg d)) for every document (all 17 definition kinds).
 
    Definitions only (extractable). *)
@@ -165,9 +165,9 @@ Fixpoint pi_type (t : ty) : list pitem :=
 
 Fixpoint pi_value (v : value) (pfx : option str) (lvl : N) {struct v} : list pitem :=
   match v with
-  | VNull => [pi_n kw_null]
-  | VBool true => [pi_n kw_true]
-  | VBool false => [pi_n kw_false]
+  | VNull => [pi_n apk_null]
+  | VBool true => [pi_n apk_true]
+  | VBool false => [pi_n apk_false]
   | VEnum n => [pi_n n]
   | VString s => pi_string false s pfx lvl
   | VVar n => [pi_p PDollar; pi_n n]
@@ -222,7 +222,7 @@ Fixpoint pi_selection (s : selection) (pfx : option str) (lvl : N) {struct s} : 
       [pi_p PSpread; pi_n name] ++ pi_directives dirs pfx lvl
   | SInline cond dirs sels =>
       match cond with
-      | Some t => [pi_p PSpread; pi_s; pi_n kw_on; pi_s; pi_n t]
+      | Some t => [pi_p PSpread; pi_s; pi_n apk_on; pi_s; pi_n t]
       | None => [pi_p PSpread]
       end ++
       pi_directives dirs pfx lvl ++
@@ -251,7 +251,7 @@ Definition pi_operation (output_empty : bool) (op : optype) (name : option str)
 
 Definition pi_fragment (name cond : str) (dirs : list directive) (sels : list selection)
     : pi_layout := fun pfx lvl =>
-  [pi_n kw_fragment; pi_s; pi_n name; pi_s; pi_n kw_on; pi_s; pi_n cond] ++
+  [pi_n apk_fragment; pi_s; pi_n name; pi_s; pi_n apk_on; pi_s; pi_n cond] ++
   pi_directives dirs pfx lvl ++ [pi_s] ++ pi_curly (map pi_selection sels) pfx lvl.
 
 (* ---- type-system definitions *)
@@ -300,20 +300,20 @@ Definition pi_name_list (lead : list pitem) (sep : ppunct) (names : list str) : 
 Definition pi_directive_definition (desc : option str) (name : str) (args : list inputvaldef)
     (repeatable : bool) (locs : list dirloc) : pi_layout := fun pfx lvl =>
   pi_description desc pfx lvl ++
-  [pi_n kw_directive; pi_s; pi_p PAt; pi_n name] ++
+  [pi_n apk_directive; pi_s; pi_p PAt; pi_n name] ++
   pi_arguments_definition args pfx lvl ++
-  (if repeatable then [pi_s; pi_n kw_repeatable] else []) ++
-  pi_name_list [pi_s; pi_n kw_on; pi_s] PPipe (map ap_dirloc_name locs).
+  (if repeatable then [pi_s; pi_n apk_repeatable] else []) ++
+  pi_name_list [pi_s; pi_n apk_on; pi_s] PPipe (map ap_dirloc_name locs).
 
 Definition pi_schema_definition (desc : option str) (dirs : list directive) (roots : list rootop)
     : pi_layout := fun pfx lvl =>
-  pi_description desc pfx lvl ++ [pi_n kw_schema] ++ pi_directives dirs pfx lvl ++ [pi_s] ++
+  pi_description desc pfx lvl ++ [pi_n apk_schema] ++ pi_directives dirs pfx lvl ++ [pi_s] ++
   pi_curly (map pi_rootop roots) pfx lvl.
 
 Definition pi_object_type_like (name : str) (impls : list str) (dirs : list directive)
     (fields : list fielddef) : pi_layout := fun pfx lvl =>
   [pi_n name] ++
-  pi_name_list [pi_s; pi_n kw_implements; pi_s] PAmp impls ++
+  pi_name_list [pi_s; pi_n apk_implements; pi_s] PAmp impls ++
   pi_directives dirs pfx lvl ++
   match fields with
   | [] => []
@@ -339,41 +339,41 @@ Definition pi_definition (output_empty : bool) (d : definition) : pi_layout := f
   | DDirective desc name args rep locs => pi_directive_definition desc name args rep locs pfx lvl
   | DSchema desc dirs roots => pi_schema_definition desc dirs roots pfx lvl
   | DScalar desc name dirs =>
-      pi_description desc pfx lvl ++ [pi_n kw_scalar; pi_s; pi_n name] ++ pi_directives dirs pfx lvl
+      pi_description desc pfx lvl ++ [pi_n apk_scalar; pi_s; pi_n name] ++ pi_directives dirs pfx lvl
   | DObject desc name impls dirs fields =>
-      pi_description desc pfx lvl ++ [pi_n kw_type; pi_s] ++
+      pi_description desc pfx lvl ++ [pi_n apk_type; pi_s] ++
       pi_object_type_like name impls dirs fields pfx lvl
   | DInterface desc name impls dirs fields =>
-      pi_description desc pfx lvl ++ [pi_n kw_interface; pi_s] ++
+      pi_description desc pfx lvl ++ [pi_n apk_interface; pi_s] ++
       pi_object_type_like name impls dirs fields pfx lvl
   | DUnion desc name dirs members =>
-      pi_description desc pfx lvl ++ [pi_n kw_union; pi_s] ++ pi_union name dirs members pfx lvl
+      pi_description desc pfx lvl ++ [pi_n apk_union; pi_s] ++ pi_union name dirs members pfx lvl
   | DEnum desc name dirs values =>
-      pi_description desc pfx lvl ++ [pi_n kw_enum; pi_s] ++
+      pi_description desc pfx lvl ++ [pi_n apk_enum; pi_s] ++
       pi_name_dirs_body name dirs (map pi_enumvaldef values) pfx lvl
   | DInput desc name dirs fields =>
-      pi_description desc pfx lvl ++ [pi_n kw_input; pi_s] ++
+      pi_description desc pfx lvl ++ [pi_n apk_input; pi_s] ++
       pi_name_dirs_body name dirs (map pi_inputvaldef fields) pfx lvl
   | XSchema dirs roots =>
-      [pi_n kw_extend; pi_s; pi_n kw_schema] ++ pi_directives dirs pfx lvl ++
+      [pi_n apk_extend; pi_s; pi_n apk_schema] ++ pi_directives dirs pfx lvl ++
       match roots with
       | [] => []
       | _ => [pi_s] ++ pi_curly (map pi_rootop roots) pfx lvl
       end
   | XScalar name dirs =>
-      [pi_n kw_extend; pi_s; pi_n kw_scalar; pi_s; pi_n name] ++ pi_directives dirs pfx lvl
+      [pi_n apk_extend; pi_s; pi_n apk_scalar; pi_s; pi_n name] ++ pi_directives dirs pfx lvl
   | XObject name impls dirs fields =>
-      [pi_n kw_extend; pi_s; pi_n kw_type; pi_s] ++ pi_object_type_like name impls dirs fields pfx lvl
+      [pi_n apk_extend; pi_s; pi_n apk_type; pi_s] ++ pi_object_type_like name impls dirs fields pfx lvl
   | XInterface name impls dirs fields =>
-      [pi_n kw_extend; pi_s; pi_n kw_interface; pi_s] ++
+      [pi_n apk_extend; pi_s; pi_n apk_interface; pi_s] ++
       pi_object_type_like name impls dirs fields pfx lvl
   | XUnion name dirs members =>
-      [pi_n kw_extend; pi_s; pi_n kw_union; pi_s] ++ pi_union name dirs members pfx lvl
+      [pi_n apk_extend; pi_s; pi_n apk_union; pi_s] ++ pi_union name dirs members pfx lvl
   | XEnum name dirs values =>
-      [pi_n kw_extend; pi_s; pi_n kw_enum; pi_s] ++
+      [pi_n apk_extend; pi_s; pi_n apk_enum; pi_s] ++
       pi_name_dirs_body name dirs (map pi_enumvaldef values) pfx lvl
   | XInput name dirs fields =>
-      [pi_n kw_extend; pi_s; pi_n kw_input; pi_s] ++
+      [pi_n apk_extend; pi_s; pi_n apk_input; pi_s] ++
       pi_name_dirs_body name dirs (map pi_inputvaldef fields) pfx lvl
   end.
 
@@ -409,7 +409,7 @@ Definition ptokens (cfg : print_config) (d : document) : list ptoken := pi_attac
 (* `{` at the start of a document is the shorthand for `query {` *)
 Definition pt_shorthand_norm (l : list ptok) : list ptok :=
   match l with
-  | PtPunct PLBrace :: _ => PtName kw_query :: l
+  | PtPunct PLBrace :: _ => PtName apk_query :: l
   | _ => l
   end.
 
@@ -465,67 +465,67 @@ Definition ptok_wf (t : ptok) : bool :=
   | _ => true
   end.
 
-Fixpoint wf_ty (t : ty) : bool :=
+Fixpoint pwf_ty (t : ty) : bool :=
   match t with
   | TNamed n | TNonNullNamed n => is_valid_name n
-  | TList t | TNonNullList t => wf_ty t
+  | TList t | TNonNullList t => pwf_ty t
   end.
 
-Fixpoint wf_value (v : value) : bool :=
+Fixpoint pwf_value (v : value) : bool :=
   match v with
   | VNull | VBool _ | VString _ => true
   | VEnum n | VVar n => is_valid_name n
   | VFloat x => ap_is_float_text x
   | VInt x => ap_is_int_text x
-  | VList l => forallb wf_value l
-  | VObject fs => forallb (fun nv => is_valid_name (fst nv) && wf_value (snd nv)) fs
+  | VList l => forallb pwf_value l
+  | VObject fs => forallb (fun nv => is_valid_name (fst nv) && pwf_value (snd nv)) fs
   end.
 
-Definition wf_argument (a : argument) : bool := is_valid_name (fst a) && wf_value (snd a).
-Definition wf_directive (d : directive) : bool := is_valid_name (d_name d) && forallb wf_argument (d_args d).
-Definition wf_directives (ds : list directive) : bool := forallb wf_directive ds.
-Definition wf_opt_value (v : option value) : bool := match v with Some v => wf_value v | None => true end.
-Definition wf_opt_name (n : option str) : bool := match n with Some n => is_valid_name n | None => true end.
+Definition pwf_argument (a : argument) : bool := is_valid_name (fst a) && pwf_value (snd a).
+Definition pwf_directive (d : directive) : bool := is_valid_name (d_name d) && forallb pwf_argument (d_args d).
+Definition pwf_directives (ds : list directive) : bool := forallb pwf_directive ds.
+Definition pwf_opt_value (v : option value) : bool := match v with Some v => pwf_value v | None => true end.
+Definition pwf_opt_name (n : option str) : bool := match n with Some n => is_valid_name n | None => true end.
 
-Definition wf_vardef (v : vardef) : bool :=
-  is_valid_name (v_name v) && wf_ty (v_ty v) && wf_opt_value (v_default v) && wf_directives (v_dirs v).
+Definition pwf_vardef (v : vardef) : bool :=
+  is_valid_name (v_name v) && pwf_ty (v_ty v) && pwf_opt_value (v_default v) && pwf_directives (v_dirs v).
 
-Fixpoint wf_selection (s : selection) : bool :=
+Fixpoint pwf_selection (s : selection) : bool :=
   match s with
   | SField alias name args dirs sels =>
-      wf_opt_name alias && is_valid_name name && forallb wf_argument args && wf_directives dirs &&
-      forallb wf_selection sels
-  | SSpread name dirs => is_valid_name name && wf_directives dirs
-  | SInline cond dirs sels => wf_opt_name cond && wf_directives dirs && forallb wf_selection sels
+      pwf_opt_name alias && is_valid_name name && forallb pwf_argument args && pwf_directives dirs &&
+      forallb pwf_selection sels
+  | SSpread name dirs => is_valid_name name && pwf_directives dirs
+  | SInline cond dirs sels => pwf_opt_name cond && pwf_directives dirs && forallb pwf_selection sels
   end.
 
-Definition wf_inputvaldef (v : inputvaldef) : bool :=
-  is_valid_name (iv_name v) && wf_ty (iv_ty v) && wf_opt_value (iv_default v) && wf_directives (iv_dirs v).
-Definition wf_fielddef (f : fielddef) : bool :=
-  is_valid_name (fd_name f) && forallb wf_inputvaldef (fd_args f) && wf_ty (fd_ty f) &&
-  wf_directives (fd_dirs f).
-Definition wf_enumvaldef (e : enumvaldef) : bool := is_valid_name (ev_value e) && wf_directives (ev_dirs e).
-Definition wf_rootop (r : rootop) : bool := is_valid_name (snd r).
+Definition pwf_inputvaldef (v : inputvaldef) : bool :=
+  is_valid_name (iv_name v) && pwf_ty (iv_ty v) && pwf_opt_value (iv_default v) && pwf_directives (iv_dirs v).
+Definition pwf_fielddef (f : fielddef) : bool :=
+  is_valid_name (fd_name f) && forallb pwf_inputvaldef (fd_args f) && pwf_ty (fd_ty f) &&
+  pwf_directives (fd_dirs f).
+Definition pwf_enumvaldef (e : enumvaldef) : bool := is_valid_name (ev_value e) && pwf_directives (ev_dirs e).
+Definition pwf_rootop (r : rootop) : bool := is_valid_name (snd r).
 
-Definition wf_definition (d : definition) : bool :=
+Definition pwf_definition (d : definition) : bool :=
   match d with
   | DOperation _ name vars dirs sels =>
-      wf_opt_name name && forallb wf_vardef vars && wf_directives dirs && forallb wf_selection sels
+      pwf_opt_name name && forallb pwf_vardef vars && pwf_directives dirs && forallb pwf_selection sels
   | DFragment name cond dirs sels =>
-      is_valid_name name && is_valid_name cond && wf_directives dirs && forallb wf_selection sels
-  | DDirective _ name args _ _ => is_valid_name name && forallb wf_inputvaldef args
-  | DSchema _ dirs roots | XSchema dirs roots => wf_directives dirs && forallb wf_rootop roots
-  | DScalar _ name dirs | XScalar name dirs => is_valid_name name && wf_directives dirs
+      is_valid_name name && is_valid_name cond && pwf_directives dirs && forallb pwf_selection sels
+  | DDirective _ name args _ _ => is_valid_name name && forallb pwf_inputvaldef args
+  | DSchema _ dirs roots | XSchema dirs roots => pwf_directives dirs && forallb pwf_rootop roots
+  | DScalar _ name dirs | XScalar name dirs => is_valid_name name && pwf_directives dirs
   | DObject _ name impls dirs fields | DInterface _ name impls dirs fields
   | XObject name impls dirs fields | XInterface name impls dirs fields =>
-      is_valid_name name && forallb is_valid_name impls && wf_directives dirs &&
-      forallb wf_fielddef fields
+      is_valid_name name && forallb is_valid_name impls && pwf_directives dirs &&
+      forallb pwf_fielddef fields
   | DUnion _ name dirs members | XUnion name dirs members =>
-      is_valid_name name && wf_directives dirs && forallb is_valid_name members
+      is_valid_name name && pwf_directives dirs && forallb is_valid_name members
   | DEnum _ name dirs values | XEnum name dirs values =>
-      is_valid_name name && wf_directives dirs && forallb wf_enumvaldef values
+      is_valid_name name && pwf_directives dirs && forallb pwf_enumvaldef values
   | DInput _ name dirs fields | XInput name dirs fields =>
-      is_valid_name name && wf_directives dirs && forallb wf_inputvaldef fields
+      is_valid_name name && pwf_directives dirs && forallb pwf_inputvaldef fields
   end.
 
-Definition wfd (d : document) : bool := forallb wf_definition d.
+Definition pwfd (d : document) : bool := forallb pwf_definition d.
